@@ -7,7 +7,7 @@ import json, os, re, shutil, sys
 results = {}
 for log in sys.argv[1:]:
     cur = None
-    for line in open(log):
+    for line in open(log, errors="replace"):
         line = line.rstrip("\n")
         m = re.match(r"=== (\S+)", line)
         if m:
